@@ -12,6 +12,7 @@ import sys
 
 OPS = ('bool', 'word', 'integer', 'char', 'choice', 'sample', 'caps')
 OPC = {o: i for i, o in enumerate(OPS)}
+TRACE = [] if os.environ.get('VERIF_TRACE_DRAWS') else None
 
 
 class SimAbort(BaseException):
@@ -66,6 +67,8 @@ class SimRandom:
         self.bias_fired = {'P1': 0, 'P2': 0}
         self.max_draws = max_draws
         self.diverged_at = None
+        self.side = None          # side PRNG while paused (draws not on the tape)
+        self.side_draws = 0
         self._wcache = None
         self._wkey = None
         for name in ('bool', 'word', 'integer', 'char', 'choice', 'sample', 'str',
@@ -82,6 +85,12 @@ class SimRandom:
     def _draw(self, op, arity, site, p_first=None):
         if arity <= 0:
             raise IndexError('Cannot choose from an empty sequence')
+        if self.side is not None:
+            self.side_draws += 1
+            self.sim.work(1)
+            if p_first is not None:
+                return 0 if self.side.random() < p_first else 1
+            return self.side.randrange(arity)
         pos = len(self.tape)
         if pos >= self.max_draws:
             raise SimBudget('draws')
@@ -122,6 +131,21 @@ class SimRandom:
                     self.bias_fired['P2'] += 1
                     return 0 if b == 'first' else arity - 1
         return self.prng.randrange(arity)
+
+    def paused(self):
+        """context manager: draws inside come from a side PRNG and leave the tape
+        untouched (used for harness-side translations, which call get_types())"""
+        rnd = self
+
+        class _P:
+            def __enter__(self_):
+                self_.prev = rnd.side
+                rnd.side = _pyrandom.Random(h64(rnd.sim.run_seed, 'side', rnd.side_draws))
+
+            def __exit__(self_, *a):
+                rnd.side = self_.prev
+                return False
+        return _P()
 
     # -- RandomUtils API ----------------------------------------------------------
     def bool(self, prob=0.5):
@@ -166,7 +190,16 @@ class SimRandom:
     def choice(self, choices):
         if not isinstance(choices, (list, tuple, str, range)):
             choices = list(choices)
-        return choices[self._draw('choice', len(choices), self._site())]
+        r = choices[self._draw('choice', len(choices), self._site())]
+        if TRACE is not None:
+            f = sys._getframe(1)
+            chain = []
+            while f is not None and len(chain) < 5:
+                chain.append('%s:%d' % (f.f_code.co_name, f.f_lineno))
+                f = f.f_back
+            TRACE.append('%d %s %s -> %s' % (len(self.tape) - 1, '<'.join(chain),
+                                             [str(x)[:30] for x in choices][-8:], str(r)[:40]))
+        return r
 
     def sample(self, choices, k=None):
         site = self._site()
